@@ -16,6 +16,7 @@ import (
 	"runtime"
 	"strconv"
 	"strings"
+	"sync"
 	"syscall"
 	"time"
 
@@ -30,13 +31,41 @@ type Case struct {
 	L   int64  `json:"l,omitempty"` // the hostile value
 	// Extra carries lab-specific addressing (program id, type key, path).
 	Extra map[string]string `json:"extra,omitempty"`
+	// Src is the concrete type of the io.Reader / io.ReaderAt the API is given
+	// (chunkio.Src*); "" = as ever (chunkio's plain non-seekable reader for the
+	// streaming APIs, *bytes.Reader for the random-access ones).
+	Src string `json:"src,omitempty"`
+	// PadN > 0: the message is Msg with PadN bytes PadFill inserted at offset
+	// PadAt (a payload that really is long, kept symbolic so that the case stays small).
+	PadAt   int  `json:"pad_at,omitempty"`
+	PadN    int  `json:"pad_n,omitempty"`
+	PadFill byte `json:"pad_fill,omitempty"`
+}
+
+// Bytes is the message the API decodes.
+func (c Case) Bytes() []byte {
+	if c.PadN <= 0 || c.PadAt < 0 || c.PadAt > len(c.Msg) {
+		return c.Msg
+	}
+	out := make([]byte, 0, len(c.Msg)+c.PadN)
+	out = append(out, c.Msg[:c.PadAt]...)
+	out = append(out, bytes.Repeat([]byte{c.PadFill}, c.PadN)...)
+	return append(out, c.Msg[c.PadAt:]...)
+}
+
+// Size is len(c.Bytes()).
+func (c Case) Size() int64 {
+	if c.PadN <= 0 || c.PadAt < 0 || c.PadAt > len(c.Msg) {
+		return int64(len(c.Msg))
+	}
+	return int64(len(c.Msg) + c.PadN)
 }
 
 // Result is the measurement of one case.
 type Result struct {
 	Alloc  uint64
 	CPU    time.Duration
-	Status string // ok | err | panic | killed:<reason>
+	Status string // ok | err | panic | killed:<reason> | skipped (not measured: the batch had failed MaxCPUStops times already)
 }
 
 // The bound: a fixed constant plus a small multiple of the input size. The
@@ -46,6 +75,14 @@ const (
 	AllocConst   = 24 << 20
 	AllocPerByte = 64
 	CPULimit     = 2 * time.Second
+	// CPUStop: a child whose current case has burnt this much CPU time stops itself
+	// (status "killed:cpu"): a decoder spinning over a declared count of 2^31 would
+	// otherwise hold the batch for minutes -- and be measured twice more.
+	CPUStop = 3 * CPULimit
+	// MaxCPUStops: after this many stopped children one batch has failed beyond
+	// doubt; its remaining cases are not measured (status "skipped"), so that a
+	// decoder that spins on a whole class of inputs costs a minute, not an hour.
+	MaxCPUStops = 4
 )
 
 func cpuNow() time.Duration {
@@ -74,14 +111,41 @@ func ChildLoop(call func(c Case) error) error {
 	}
 	start, _ := strconv.Atoi(os.Getenv("VERIF_CHILD_START"))
 	out := bufio.NewWriter(os.Stdout)
+	// watchdog: CPU time (of the whole process, which is the call plus the collector
+	// working for it) since the current case began
+	var mu sync.Mutex
+	cur, curStart := -1, time.Duration(0)
+	go func() {
+		for range time.Tick(200 * time.Millisecond) {
+			mu.Lock()
+			if cur >= 0 && cpuNow()-curStart > CPUStop {
+				fmt.Fprintf(out, "CPUSTOP %d\n", cur)
+				out.Flush()
+				os.Exit(3)
+			}
+			mu.Unlock()
+		}
+	}()
 	for i := start; i < len(cases); i++ {
+		mu.Lock()
 		fmt.Fprintf(out, "BEGIN %d\n", i)
 		out.Flush()
+		mu.Unlock()
+		c := cases[i]
+		if c.PadN > 0 {
+			c.Msg, c.PadN = c.Bytes(), 0 // expanding a padded message is not part of the call
+		}
 		var m0, m1 runtime.MemStats
 		runtime.ReadMemStats(&m0)
 		c0 := cpuNow()
-		err := ev.Guard(func() error { return call(cases[i]) })
+		mu.Lock()
+		cur, curStart = i, c0
+		mu.Unlock()
+		err := ev.Guard(func() error { return call(c) })
 		c1 := cpuNow()
+		mu.Lock()
+		cur = -1
+		mu.Unlock()
 		runtime.ReadMemStats(&m1)
 		st := "ok"
 		if err != nil {
@@ -90,8 +154,10 @@ func ChildLoop(call func(c Case) error) error {
 				st = "panic"
 			}
 		}
+		mu.Lock()
 		fmt.Fprintf(out, "RES %d %d %d %s\n", i, m1.TotalAlloc-m0.TotalAlloc, int64(c1-c0), st)
 		out.Flush()
+		mu.Unlock()
 		if m1.HeapSys > 1<<30 {
 			runtime.GC()
 		}
@@ -113,7 +179,7 @@ func Measure(cases []Case, scratch, childTest string) ([]Result, error) {
 	json.NewEncoder(f).Encode(cases)
 	f.Close()
 	res := make([]Result, len(cases))
-	start := 0
+	start, cpuStops := 0, 0
 	for start < len(cases) {
 		cmd := exec.Command(os.Args[0], "-test.run", childTest, "-test.timeout", "30m")
 		cmd.Env = append(os.Environ(), "VERIF_CHILD_ALLOC="+f.Name(), "VERIF_CHILD_START="+strconv.Itoa(start), "VERIF_STATS=", "VERIF_REPLAY=", "GOGC=100")
@@ -170,6 +236,8 @@ func Measure(cases []Case, scratch, childTest string) ([]Result, error) {
 		switch {
 		case timedOut:
 			reason = "timeout"
+		case strings.Contains(s, fmt.Sprintf("CPUSTOP %d\n", cur)):
+			reason = "cpu"
 		case strings.Contains(s, "out of memory") || strings.Contains(s, "cannot allocate memory") || strings.Contains(s, "makeslice: len out of range") || strings.Contains(s, "makemap"):
 			reason = "oom"
 		case strings.Contains(s, "stack overflow"):
@@ -177,6 +245,14 @@ func Measure(cases []Case, scratch, childTest string) ([]Result, error) {
 		}
 		res[cur] = Result{Status: "killed:" + reason}
 		start = cur + 1
+		if reason == "cpu" {
+			if cpuStops++; cpuStops >= MaxCPUStops {
+				for i := start; i < len(res); i++ {
+					res[i] = Result{Status: "skipped"}
+				}
+				break
+			}
+		}
 	}
 	return res, nil
 }
@@ -190,18 +266,24 @@ func tail(s string, n int) string {
 
 // Verdict applies the bound to one measured case.
 func Verdict(c Case, r Result) error {
-	n := int64(len(c.Msg))
+	n := c.Size()
 	bound := uint64(AllocConst + AllocPerByte*n)
 	key := fmt.Sprintf("%s/%s", c.API, c.Pos)
+	src := ""
+	if c.Src != "" {
+		src = " over a *" + c.Src
+	}
 	switch {
+	case r.Status == "killed:cpu":
+		return ev.Errf("cpu/"+key, "decoding a %d-byte message through %s%s was stopped after more than %v of CPU time (limit %v); length position %s set to %d", n, c.API, src, CPUStop, CPULimit, c.Pos, c.L)
 	case strings.HasPrefix(r.Status, "killed:"):
-		return ev.Errf("killed/"+key, "decoding a %d-byte message through %s killed the process (%s); length position %s set to %d", n, c.API, strings.TrimPrefix(r.Status, "killed:"), c.Pos, c.L)
+		return ev.Errf("killed/"+key, "decoding a %d-byte message through %s%s killed the process (%s); length position %s set to %d", n, c.API, src, strings.TrimPrefix(r.Status, "killed:"), c.Pos, c.L)
 	case r.Status == "panic":
-		return ev.Errf("panic/"+key, "decoding a %d-byte message through %s panicked; length position %s set to %d", n, c.API, c.Pos, c.L)
+		return ev.Errf("panic/"+key, "decoding a %d-byte message through %s%s panicked; length position %s set to %d", n, c.API, src, c.Pos, c.L)
 	case r.Alloc > bound:
-		return ev.Errf("alloc/"+key, "decoding a %d-byte message through %s allocated %d bytes (bound %d); length position %s set to %d", n, c.API, r.Alloc, bound, c.Pos, c.L)
+		return ev.Errf("alloc/"+key, "decoding a %d-byte message through %s%s allocated %d bytes (bound %d); length position %s set to %d", n, c.API, src, r.Alloc, bound, c.Pos, c.L)
 	case r.CPU > CPULimit:
-		return ev.Errf("cpu/"+key, "decoding a %d-byte message through %s used %v CPU (limit %v); length position %s set to %d", n, c.API, r.CPU, CPULimit, c.Pos, c.L)
+		return ev.Errf("cpu/"+key, "decoding a %d-byte message through %s%s used %v CPU (limit %v); length position %s set to %d", n, c.API, src, r.CPU, CPULimit, c.Pos, c.L)
 	}
 	return nil
 }
